@@ -43,6 +43,9 @@ pub enum LinkFault {
     SubLayoutByKeyMissingFromTable(u8),
     /// a second step with the same name but another (link-less) functionary is appended to the layout
     DuplicateStepOtherFunctionary(u8),
+    /// the (validly signed) link is filed under a name whose eight-character id field consists of dots followed
+    /// by only the first 0-7 characters of the signer's key id: `<step>.....abcd.link`
+    FiledUnderShortenedPrefix(u8),
 }
 
 #[derive(Clone, Debug, Serialize, Deserialize)]
@@ -82,6 +85,11 @@ pub fn apply_faults(spec: &Spec) -> (World, Option<serde_json::Value>) {
             LinkFault::Remove => {
                 w.links.remove(i);
             }
+            LinkFault::FiledUnderShortenedPrefix(n) => {
+                let keep = (*n % 8) as usize;
+                let id = key_id_str(&this_key);
+                w.links[i].name_field = Some(format!("{}{}", ".".repeat(8 - keep), &id[..keep]));
+            }
             LinkFault::SignedByOther(n) => {
                 if let (Some(o), Body::Link { sigs, .. }) = (pick(&others, *n), &mut w.links[i].body) {
                     *sigs = vec![SigEntry::good(&o)];
@@ -94,18 +102,18 @@ pub fn apply_faults(spec: &Spec) -> (World, Option<serde_json::Value>) {
             }
             LinkFault::ByUnauthorizedFunctionary(n) => {
                 if let Some(u) = pick(&unauthorized, *n) {
-                    w.links[i] = LinkFile { step: step.name.clone(), filed_under: u.clone(), body: Body::Link { link: base_link, sigs: vec![SigEntry::good(&u)], tamper: None } };
+                    w.links[i] = LinkFile { step: step.name.clone(), filed_under: u.clone(), name_field: None, body: Body::Link { link: base_link, sigs: vec![SigEntry::good(&u)], tamper: None } };
                 }
             }
             LinkFault::ByKeyMissingFromTable(n) => {
                 let s = stranger(*n);
                 let sidx = *si as usize % nsteps;
                 w.layout.steps[sidx].pubkeys.push(s.clone());
-                w.links[i] = LinkFile { step: step.name.clone(), filed_under: s.clone(), body: Body::Link { link: base_link, sigs: vec![SigEntry::good(&s)], tamper: None } };
+                w.links[i] = LinkFile { step: step.name.clone(), filed_under: s.clone(), name_field: None, body: Body::Link { link: base_link, sigs: vec![SigEntry::good(&s)], tamper: None } };
             }
             LinkFault::ByStranger(n) => {
                 let s = stranger(n.wrapping_add(20));
-                w.links[i] = LinkFile { step: step.name.clone(), filed_under: s.clone(), body: Body::Link { link: base_link, sigs: vec![SigEntry::good(&s)], tamper: None } };
+                w.links[i] = LinkFile { step: step.name.clone(), filed_under: s.clone(), name_field: None, body: Body::Link { link: base_link, sigs: vec![SigEntry::good(&s)], tamper: None } };
             }
             LinkFault::MultiSigned(n) => {
                 if let (Some(o), Body::Link { sigs, .. }) = (pick(&others, *n), &mut w.links[i].body) {
@@ -151,7 +159,7 @@ pub fn apply_faults(spec: &Spec) -> (World, Option<serde_json::Value>) {
                     tamper: None,
                     links: vec![],
                 };
-                w.links[i] = LinkFile { step: step.name.clone(), filed_under: signer, body: Body::Sub { world: Box::new(inner), placement: Placement::Proper } };
+                w.links[i] = LinkFile { step: step.name.clone(), filed_under: signer, name_field: None, body: Body::Sub { world: Box::new(inner), placement: Placement::Proper } };
             }
             LinkFault::DuplicateStepOtherFunctionary(n) => {
                 // a functionary of the key table that has no link file for this step name
@@ -233,6 +241,7 @@ fn fault_strategy() -> BoxedStrategy<LinkFault> {
         2 => any::<u8>().prop_map(LinkFault::SubLayoutByUnauthorizedFunctionary),
         1 => any::<u8>().prop_map(LinkFault::SubLayoutByKeyMissingFromTable),
         2 => any::<u8>().prop_map(LinkFault::DuplicateStepOtherFunctionary),
+        2 => any::<u8>().prop_map(LinkFault::FiledUnderShortenedPrefix),
     ]
     .boxed()
 }
@@ -246,7 +255,7 @@ impl Property for C02 {
         "Generated: valid worlds with 1-4 steps, thresholds 0-3, functionary pool of 2-5 keys, every assignment of keys to step.pubkeys, then \
          1-3 faults on chosen (step, link) files: removed; signed by another functionary but filed under this key's prefix; tampered after \
          signing; replaced by a valid link of a functionary authorised only for other steps; of a key authorised in the step but absent \
-         from the key table; of a stranger; multiply signed; signature by another key labelled with this key's id; corrupted signature; \
+         from the key table; of a stranger; filed under a name whose id field is dots plus only the first 0-7 characters of the signer's id; multiply signed; signature by another key labelled with this key's id; corrupted signature; \
          garbage; aliased key-table entry (table files key B under id(A), B signs labelled id(A)); evidence replaced by a valid \
          sub-layout of a functionary who is not authorised for the step / missing from the key table. Enumerated: 2 steps x 2 keys, every \
          (step,key) file in {absent, valid by that key, signed by the other key under this name, tampered, garbage}: 625 populations. \
@@ -294,7 +303,7 @@ impl Property for C02 {
                         3 => Body::Link { link, sigs: vec![SigEntry::good(key)], tamper: Some(TreeEdit { site: 40000, kind: 0, arg: "x".into() }) },
                         _ => Body::Garbage("{}".into()),
                     };
-                    links.push(LinkFile { step: step.into(), filed_under: key.clone(), body });
+                    links.push(LinkFile { step: step.into(), filed_under: key.clone(), name_field: None, body });
                 }
                 out.push(Spec { world: World { layout: layout.clone(), sigs: vec![SigEntry::good(&owner)], tamper: None, links }, owners: vec![owner.clone()], faults: vec![] });
             }
@@ -371,7 +380,7 @@ impl Property for C02 {
             let (cr, _, _) = if spec.faults.is_empty() {
                 // enumerated population: control = both files valid
                 let mut c = w.clone();
-                c.links = w.layout.steps.iter().map(|s| LinkFile { step: s.name.clone(), filed_under: s.pubkeys[0].clone(), body: Body::Link { link: LinkSpec { name: s.name.clone(), ..Default::default() }, sigs: vec![SigEntry::good(&s.pubkeys[0])], tamper: None } }).collect();
+                c.links = w.layout.steps.iter().map(|s| LinkFile { step: s.name.clone(), filed_under: s.pubkeys[0].clone(), name_field: None, body: Body::Link { link: LinkSpec { name: s.name.clone(), ..Default::default() }, sigs: vec![SigEntry::good(&s.pubkeys[0])], tamper: None } }).collect();
                 run_world(&c, &spec.owners, &cdir, now)
             } else {
                 run_world(&spec.world, &spec.owners, &cdir, now)
